@@ -99,6 +99,20 @@ pub struct Scenario {
     pub clients: Vec<Vec<Op>>,
     /// explicit schedule: at global yield number `seq` hand the baton to `client`
     pub schedule: Option<Vec<(u64, u32)>>,
+    /// how the client threads are made: 0 named "client-N", default stack; 1 unnamed;
+    /// 2 named "main" with an 8 MiB stack (what a process's main thread looks like); 3 1 MiB stack
+    pub thread_style: u8,
+}
+
+/// Thread builder for a client, according to the scenario's thread style.
+pub fn client_thread_builder(style: u8, me: usize) -> std::thread::Builder {
+    let b = std::thread::Builder::new();
+    match style {
+        1 => b,
+        2 => b.name("main".into()).stack_size(8 << 20),
+        3 => b.name(format!("client-{me}")).stack_size(1 << 20),
+        _ => b.name(format!("client-{me}")),
+    }
 }
 
 pub const SHARED_SLOTS: usize = 4;
@@ -809,8 +823,7 @@ fn client_main(shared: Arc<Shared>, mut cs: ClientState) {
                     prev_thread: my_handle,
                 };
                 let sh = shared.clone();
-                let h = std::thread::Builder::new()
-                    .name(format!("client-{me}"))
+                let h = client_thread_builder(shared.scenario.thread_style, me)
                     .spawn(move || client_main(sh, succ))
                     .expect("spawn");
                 st.handles[me] = Some(h);
@@ -1098,8 +1111,7 @@ pub fn run_scenario(sc: &Scenario) -> RunResult {
         for me in 0..n {
             let sh = shared.clone();
             let cs = ClientState { me, next_op: 0, local: None, prev_thread: None };
-            let h = std::thread::Builder::new()
-                .name(format!("client-{me}"))
+            let h = client_thread_builder(sc.thread_style, me)
                 .spawn(move || client_main(sh, cs))
                 .expect("spawn");
             st.handles[me] = Some(h);
